@@ -64,16 +64,19 @@ func refLeaves(m map[string]interface{}, noattr bool, prefix, textKey string, do
 
 func vC09enum(spec vSpec) {
 	m := vNondetMap(spec)
+	tk := "#text"
 	if vChoose(2) == 1 {
-		m["#text"] = vNondetString(1, 1, "xy")
+		tk = []string{"#text", "_text"}[vChoose(2)] // the text key follows SetGlobalKeyMapPrefix
+		m[tk] = vNondetString(1, 1, "xy")
 		vCover("textkey")
 	}
+	SetGlobalKeyMapPrefix(tk[:1])
 	noattr := vChoose(2) == 1
 	dot := vChoose(2) == 1
 	prefix := []string{"-", "", "@", "-@"}[vChoose(4)]
 	SetAttrPrefix(prefix)
 	LeafUseDotNotation(dot)
-	wantP, wantV, emptyKey := refLeaves(m, noattr, prefix, "#text", dot)
+	wantP, wantV, emptyKey := refLeaves(m, noattr, prefix, tk, dot)
 	mark := vMark(m)
 	var ln []LeafNode
 	if noattr {
@@ -134,6 +137,7 @@ func vC09enum(spec vSpec) {
 	}
 	vAssert(vSameMultiset(lv, gotV), "projections: LeafValues is the value projection of LeafNodes for the same option")
 	vAssertUnchangedSince(mark, "leaves: receiver untouched")
+	SetGlobalKeyMapPrefix("#")
 	SetAttrPrefix("-")
 	LeafUseDotNotation(false)
 }
